@@ -71,6 +71,7 @@ const (
 	c16DialWaitShort = 1500 * time.Millisecond
 	c16DupWait       = 10 * time.Second
 	c16RouteGrace    = 3 * time.Second
+	c16RouteHard     = 25 * time.Second // far deadline of every accept context that may be handed a connection
 )
 
 var c16RouteRuns int64
@@ -201,7 +202,15 @@ func c16RouteRun(c c16RouteCase) (out c16RouteOut) {
 				actx, acancel = context.WithDeadline(context.Background(), t0.Add(time.Duration(s.AcceptMs+s.CancelMs)*time.Millisecond))
 				setClass("accept-with-deadline")
 			} else {
-				actx, acancel = context.WithCancel(context.Background())
+				if s.Kind == "lonely" || (s.Kind == "cancel" && s.CancelMs < 0) {
+					actx, acancel = context.WithCancel(context.Background()) // can never be handed a connection
+				} else {
+					// Once AcceptWithContext has been handed the DTLS connection it only honours the
+					// context's *deadline* (SCTP set-up ignores cancellation): if the dialer has given up
+					// in the meantime a plain cancel context would block the call for ever. Every
+					// acceptor that may receive a connection therefore carries a far deadline as well.
+					actx, acancel = context.WithDeadline(context.Background(), t0.Add(c16RouteHard))
+				}
 			}
 			mu.Lock()
 			cancels = append(cancels, acancel)
@@ -314,7 +323,14 @@ func c16RouteRun(c c16RouteCase) (out c16RouteOut) {
 		cf()
 	}
 	mu.Unlock()
-	acceptWG.Wait()
+	accDone := make(chan struct{})
+	go func() { acceptWG.Wait(); close(accDone) }()
+	select {
+	case <-accDone:
+	case <-time.After(c16RouteHard + 60*time.Second):
+		out.key, out.msg = "harness", "Accept calls did not return after their contexts were cancelled and their deadlines had passed"
+		return
+	}
 	if os.Getenv("C16_DEBUG") != "" {
 		fmt.Printf("c16 debug: accepts done after %v\n", time.Since(t0))
 		for _, p := range parties {
